@@ -142,3 +142,77 @@ Definition spec_ok (c : coll) (name : string) (obs : result (nat * tree)) : bool
         else true                        (* type-inconsistent configurations: outside the statement *)
     end
   else true.
+
+(** ** whichever spelling: '_' and '-' inside a segment are the same name *)
+(** normalisation of one segment, stated directly: the first and the last
+    character stay, every other occurrence of the rewritten character changes *)
+Fixpoint norm_tail (f t : ascii) (s : string) : string :=
+  match s with
+  | EmptyString => EmptyString
+  | String c EmptyString => String c EmptyString
+  | String c s' => String (if Ascii.eqb c f then t else c) (norm_tail f t s')
+  end.
+
+Definition norm_seg (ad : bool) (s : string) : string :=
+  match s with
+  | EmptyString => EmptyString
+  | String c s' => String c (if ad then norm_tail "_" "-" s' else norm_tail "-" "_" s')
+  end.
+
+Definition norm_name (ad : bool) (n : string) : string :=
+  join "." (map (norm_seg ad) (split_char "." n)).
+
+(** two names that normalise alike, whatever the collections' settings *)
+Definition same_spelling (a b : string) : bool :=
+  String.eqb (norm_name true a) (norm_name true b) && String.eqb (norm_name false a) (norm_name false b).
+
+Definition obs_same (a b : result (nat * tree)) : bool :=
+  match a, b with
+  | Ok (i, x), Ok (j, y) => Nat.eqb i j && dict_equiv x y && dict_equiv y x
+  | Err e1, Err e2 => err_eqb e1 e2
+  | _, _ => false
+  end.
+
+(** every two names of the list that are spellings of one another are
+    answered alike *)
+Fixpoint spelling_invariant (names : list string) (obs : list (result (nat * tree))) : bool :=
+  match names, obs with
+  | n :: names', o :: obs' =>
+      (fix go (ns : list string) (os : list (result (nat * tree))) : bool :=
+         match ns, os with
+         | m :: ns', p :: os' => (if same_spelling n m then obs_same o p else true) && go ns' os'
+         | _, _ => true
+         end) names' obs' &&
+      spelling_invariant names' obs'
+  | _, _ => true
+  end.
+
+(** ** stored configurations are what was configured: the collection built for
+    each sub-collection item of the script (in order) holds exactly the
+    configuration the script gives it -- nothing of a sibling's, a parent's or
+    a caller's later edits *)
+Fixpoint cfg_match (it : item) (c : coll) {struct it} : bool :=
+  match it with
+  | ITask _ _ _ _ => true
+  | IMod _ _ nsitem _ _ => cfg_match nsitem c
+  | ISub _ _ cfg items _ _ =>
+      dict_equiv cfg (Node (c_config c)) && dict_equiv (Node (c_config c)) cfg &&
+      (* (a later binding under the same name replaces an earlier one: then
+         the positions do not correspond and nothing is claimed below) *)
+      if Nat.eqb (List.length (filter (fun i => match i with ITask _ _ _ _ => false | _ => true end) items))
+                 (List.length (c_subs c))
+      then
+        (fix go (l : list item) (ss : list (string * coll)) {struct l} : bool :=
+           match l with
+           | [] => true
+           | i :: l' =>
+               match i with
+               | ITask _ _ _ _ => go l' ss
+               | _ => match ss with
+                      | (_, sc) :: ss' => cfg_match i sc && go l' ss'
+                      | [] => true
+                      end
+               end
+           end) items (c_subs c)
+      else true
+  end.
